@@ -1,4 +1,4 @@
 From Coq Require Extraction ExtrOcamlBasic.
 From Centro Require Import Base.Sx Model.Recon Spec.ReconSpec Spec.ReconInv.
 Extraction Language OCaml.
-Extraction "extracted/c04.ml" entry_recon entry_check entry_iter entry_prep_check.
+Extraction "extracted/c04.ml" entry_recon entry_check entry_iter entry_prep_check entry_ord_check.
